@@ -225,7 +225,12 @@ class PanicSafety:
                     if lb['id'] in mu:
                         add(e.block, ('U', e, 'crate function that may run user code: %s (%s)' % (tgt.split('::')[-1], mu[lb['id']])))
                         continue
+                    seen_sum = set()
                     for kind, fld, argi in self.summary(lb['id']):
+                        # the same field committed on several paths of the callee is one commit at the call site
+                        if (kind, fld, argi) in seen_sum:
+                            continue
+                        seen_sum.add((kind, fld, argi))
                         if kind == 'SETARG':
                             a = e.args[argi - 1] if argi - 1 < len(e.args) else None
                             k = classify_value(I, e, a, fld, e.args[0] if e.args else None)
@@ -372,6 +377,9 @@ def classify_store(I, e):
         return ('SETARG', fld, v[1])
     old = I.read(e.state.copy(), lv)
     k = classify_value(I, e, v, fld, None, old)
+    if k == 'SET' and not lengthy:
+        # a pointer / slice / iterator stored into a field that is not a length or cursor count: not a length commit
+        return ('OTHER', fld, None)
     return (k, fld, None)
 
 
